@@ -131,7 +131,9 @@ def gen_fit_once(rng, idx):
     y2 = [C.dyadic(rng, -4, 4, 6) for _ in xs]
     a_, b_ = C.dyadic(rng, -2, 2, 3), C.dyadic(rng, -2, 2, 3)
     comb = [a_ * u + b_ * v for u, v in zip(ys, y2)]
-    yz = [y + (1000.0 if w == 0 else 0.0) for y, w in zip(ys, ws)]
+    # zero-weight points carry sentinels of huge magnitude (masked pixels often hold 1e12 .. 1e300)
+    sentinel = [1000.0, 1e12, 1e17, 1e30, 1e300, -1e30][idx % 6]
+    yz = [(sentinel if w == 0 else y) for y, w in zip(ys, ws)]
     call = {'f': 'fit', 'kind': 'well', 'poly': poly, 'nord': k, 'bkpt': b, 'xs': xs, 'ys': ys, 'ws': ws,
             'extra': {'y2': y2, 'comb': comb, 'zw': yz}, 'ab': [a_, b_]}
     # data that are not float64: float32 / integer ydata, float32 weights (all values exactly representable, so
@@ -144,7 +146,7 @@ def gen_fit_once(rng, idx):
         call['ys'] = [float(round(4 * y)) for y in ys]
         call['dtypes'] = {'y': rng.choice(['int64', 'int32'])}
         call['extra']['comb'] = [a_ * u + b_ * v for u, v in zip(call['ys'], y2)]
-        call['extra']['zw'] = [y + (1000.0 if w == 0 else 0.0) for y, w in zip(call['ys'], ws)]
+        call['extra']['zw'] = [(sentinel if w == 0 else y) for y, w in zip(call['ys'], ws)]
     elif t == 4:
         call['dtypes'] = {'w': 'float32'}
     elif t == 5 and not poly:
@@ -161,7 +163,7 @@ def gen_fit_once(rng, idx):
             call[key] = [v * cs for v in call[key]]
         call['ws'] = [w / (cs * cs) * ww for w in call['ws']]
         call['extra'] = {nm: [v * cs for v in vals] for nm, vals in call['extra'].items()}
-        call['extra']['zw'] = [y + (1000.0 * cs if w == 0 else 0.0) for y, w in zip(call['ys'], call['ws'])]
+        call['extra']['zw'] = [(sentinel if w == 0 else y) for y, w in zip(call['ys'], call['ws'])]
     return call
 
 
